@@ -23,6 +23,9 @@ package server
 //@ ghost var lock int
 // pending: a data-modifying handler has reported success (err == nil, updated) and its command is not yet in the log buffer
 //@ ghost var pending bool
+//@ ghost var nlogged int
+//@ ghost var nflushed int
+//@ ghost var mine int
 
 //@ func rwlocker.Lock(l)
 //@   assumed
@@ -120,10 +123,21 @@ package server
 //@   ensures [msg-kept] len(old(msg.Args)) > 0 ==> msg.Args == old(msg.Args) && msg._command == lower(msg.Args[0])
 //@ func Server.handleInputCommand
 //@   lockcheck
-//@   requires s != nil && s.config != nil && client != nil && msg != nil && len(msg.Args) > 0 && msg._command == ""
+//@   locks-internally
+//@   requires s != nil && s.config != nil && client != nil && msg != nil && len(msg.Args) > 0 && (msg._command == "" || msg._command == lower(msg.Args[0]))
+// Outside these contracts: a one-word HTTP request with a query string (GET /ping?x=1). netServe has cached the command
+// word before handleInputCommand strips the query from Args[0], so the cached word is stale ("ping?x=1"); on the real
+// server such a request is answered "unknown command 'ping'". Both switches use the same cached word.
+//@   requires [no-http-query] !(msg.ConnType == HTTP && len(msg.Args) == 1 && hasByte(msg.Args[0], 63))
 //@   requires lock == 0 && !pending
 //@   split cmd @Message.Command: [set] result == "set" | [del] result == "del" | [drop] result == "drop" | [fset] result == "fset" | [flushdb] result == "flushdb" | [setchan] result == "setchan" | [pdelchan] result == "pdelchan" | [delchan] result == "delchan" | [sethook] result == "sethook" | [pdelhook] result == "pdelhook" | [delhook] result == "delhook" | [expire] result == "expire" | [persist] result == "persist" | [jset] result == "jset" | [pdel] result == "pdel" | [rename] result == "rename" | [renamenx] result == "renamenx" | [eval] result == "eval" | [evalsha] result == "evalsha" | [get] result == "get" | [keys] result == "keys" | [scan] result == "scan" | [nearby] result == "nearby" | [within] result == "within" | [intersects] result == "intersects" | [hooks] result == "hooks" | [chans] result == "chans" | [search] result == "search" | [ttl] result == "ttl" | [bounds] result == "bounds" | [server] result == "server" | [info] result == "info" | [type] result == "type" | [jget] result == "jget" | [evalro] result == "evalro" | [evalrosha] result == "evalrosha" | [role] result == "role" | [fget] result == "fget" | [exists] result == "exists" | [fexists] result == "fexists" | [healthz] result == "healthz" | [follow] result == "follow" | [slaveof] result == "slaveof" | [replconf] result == "replconf" | [readonly] result == "readonly" | [config] result == "config" | [output] result == "output" | [echo] result == "echo" | [massinsert] result == "massinsert" | [sleep] result == "sleep" | [shutdown] result == "shutdown" | [aofshrink] result == "aofshrink" | [client] result == "client" | [evalna] result == "evalna" | [evalnasha] result == "evalnasha" | [subscribe] result == "subscribe" | [psubscribe] result == "psubscribe" | [publish] result == "publish" | [monitor] result == "monitor" | [jdel] result == "jdel" | [stats] result == "stats" | [test] result == "test" | [aof] result == "aof" | [aofmd5] result == "aofmd5" | [gc] result == "gc" | [script] result == "script" | [ping] result == "ping" | [auth] result == "auth" | [hello] result == "hello" | [command] result == "command" | [OTHER] result != "set" && result != "del" && result != "drop" && result != "fset" && result != "flushdb" && result != "setchan" && result != "pdelchan" && result != "delchan" && result != "sethook" && result != "pdelhook" && result != "delhook" && result != "expire" && result != "persist" && result != "jset" && result != "pdel" && result != "rename" && result != "renamenx" && result != "eval" && result != "evalsha" && result != "get" && result != "keys" && result != "scan" && result != "nearby" && result != "within" && result != "intersects" && result != "hooks" && result != "chans" && result != "search" && result != "ttl" && result != "bounds" && result != "server" && result != "info" && result != "type" && result != "jget" && result != "evalro" && result != "evalrosha" && result != "role" && result != "fget" && result != "exists" && result != "fexists" && result != "healthz" && result != "follow" && result != "slaveof" && result != "replconf" && result != "readonly" && result != "config" && result != "output" && result != "echo" && result != "massinsert" && result != "sleep" && result != "shutdown" && result != "aofshrink" && result != "client" && result != "evalna" && result != "evalnasha" && result != "subscribe" && result != "psubscribe" && result != "publish" && result != "monitor" && result != "jdel" && result != "stats" && result != "test" && result != "aof" && result != "aofmd5" && result != "gc" && result != "script" && result != "ping" && result != "auth" && result != "hello" && result != "command" && result != "timeout" | [timeout.set] result == "timeout" ;; @rewriteTimeoutMsg lower(msg.Args[0]) == "set" | [timeout.del] result == "timeout" ;; @rewriteTimeoutMsg lower(msg.Args[0]) == "del" | [timeout.drop] result == "timeout" ;; @rewriteTimeoutMsg lower(msg.Args[0]) == "drop" | [timeout.fset] result == "timeout" ;; @rewriteTimeoutMsg lower(msg.Args[0]) == "fset" | [timeout.flushdb] result == "timeout" ;; @rewriteTimeoutMsg lower(msg.Args[0]) == "flushdb" | [timeout.setchan] result == "timeout" ;; @rewriteTimeoutMsg lower(msg.Args[0]) == "setchan" | [timeout.pdelchan] result == "timeout" ;; @rewriteTimeoutMsg lower(msg.Args[0]) == "pdelchan" | [timeout.delchan] result == "timeout" ;; @rewriteTimeoutMsg lower(msg.Args[0]) == "delchan" | [timeout.sethook] result == "timeout" ;; @rewriteTimeoutMsg lower(msg.Args[0]) == "sethook" | [timeout.pdelhook] result == "timeout" ;; @rewriteTimeoutMsg lower(msg.Args[0]) == "pdelhook" | [timeout.delhook] result == "timeout" ;; @rewriteTimeoutMsg lower(msg.Args[0]) == "delhook" | [timeout.expire] result == "timeout" ;; @rewriteTimeoutMsg lower(msg.Args[0]) == "expire" | [timeout.persist] result == "timeout" ;; @rewriteTimeoutMsg lower(msg.Args[0]) == "persist" | [timeout.jset] result == "timeout" ;; @rewriteTimeoutMsg lower(msg.Args[0]) == "jset" | [timeout.pdel] result == "timeout" ;; @rewriteTimeoutMsg lower(msg.Args[0]) == "pdel" | [timeout.rename] result == "timeout" ;; @rewriteTimeoutMsg lower(msg.Args[0]) == "rename" | [timeout.renamenx] result == "timeout" ;; @rewriteTimeoutMsg lower(msg.Args[0]) == "renamenx" | [timeout.eval] result == "timeout" ;; @rewriteTimeoutMsg lower(msg.Args[0]) == "eval" | [timeout.evalsha] result == "timeout" ;; @rewriteTimeoutMsg lower(msg.Args[0]) == "evalsha" | [timeout.get] result == "timeout" ;; @rewriteTimeoutMsg lower(msg.Args[0]) == "get" | [timeout.keys] result == "timeout" ;; @rewriteTimeoutMsg lower(msg.Args[0]) == "keys" | [timeout.scan] result == "timeout" ;; @rewriteTimeoutMsg lower(msg.Args[0]) == "scan" | [timeout.nearby] result == "timeout" ;; @rewriteTimeoutMsg lower(msg.Args[0]) == "nearby" | [timeout.within] result == "timeout" ;; @rewriteTimeoutMsg lower(msg.Args[0]) == "within" | [timeout.intersects] result == "timeout" ;; @rewriteTimeoutMsg lower(msg.Args[0]) == "intersects" | [timeout.hooks] result == "timeout" ;; @rewriteTimeoutMsg lower(msg.Args[0]) == "hooks" | [timeout.chans] result == "timeout" ;; @rewriteTimeoutMsg lower(msg.Args[0]) == "chans" | [timeout.search] result == "timeout" ;; @rewriteTimeoutMsg lower(msg.Args[0]) == "search" | [timeout.ttl] result == "timeout" ;; @rewriteTimeoutMsg lower(msg.Args[0]) == "ttl" | [timeout.bounds] result == "timeout" ;; @rewriteTimeoutMsg lower(msg.Args[0]) == "bounds" | [timeout.server] result == "timeout" ;; @rewriteTimeoutMsg lower(msg.Args[0]) == "server" | [timeout.info] result == "timeout" ;; @rewriteTimeoutMsg lower(msg.Args[0]) == "info" | [timeout.type] result == "timeout" ;; @rewriteTimeoutMsg lower(msg.Args[0]) == "type" | [timeout.jget] result == "timeout" ;; @rewriteTimeoutMsg lower(msg.Args[0]) == "jget" | [timeout.evalro] result == "timeout" ;; @rewriteTimeoutMsg lower(msg.Args[0]) == "evalro" | [timeout.evalrosha] result == "timeout" ;; @rewriteTimeoutMsg lower(msg.Args[0]) == "evalrosha" | [timeout.role] result == "timeout" ;; @rewriteTimeoutMsg lower(msg.Args[0]) == "role" | [timeout.fget] result == "timeout" ;; @rewriteTimeoutMsg lower(msg.Args[0]) == "fget" | [timeout.exists] result == "timeout" ;; @rewriteTimeoutMsg lower(msg.Args[0]) == "exists" | [timeout.fexists] result == "timeout" ;; @rewriteTimeoutMsg lower(msg.Args[0]) == "fexists" | [timeout.healthz] result == "timeout" ;; @rewriteTimeoutMsg lower(msg.Args[0]) == "healthz" | [timeout.follow] result == "timeout" ;; @rewriteTimeoutMsg lower(msg.Args[0]) == "follow" | [timeout.slaveof] result == "timeout" ;; @rewriteTimeoutMsg lower(msg.Args[0]) == "slaveof" | [timeout.replconf] result == "timeout" ;; @rewriteTimeoutMsg lower(msg.Args[0]) == "replconf" | [timeout.readonly] result == "timeout" ;; @rewriteTimeoutMsg lower(msg.Args[0]) == "readonly" | [timeout.config] result == "timeout" ;; @rewriteTimeoutMsg lower(msg.Args[0]) == "config" | [timeout.output] result == "timeout" ;; @rewriteTimeoutMsg lower(msg.Args[0]) == "output" | [timeout.echo] result == "timeout" ;; @rewriteTimeoutMsg lower(msg.Args[0]) == "echo" | [timeout.massinsert] result == "timeout" ;; @rewriteTimeoutMsg lower(msg.Args[0]) == "massinsert" | [timeout.sleep] result == "timeout" ;; @rewriteTimeoutMsg lower(msg.Args[0]) == "sleep" | [timeout.shutdown] result == "timeout" ;; @rewriteTimeoutMsg lower(msg.Args[0]) == "shutdown" | [timeout.aofshrink] result == "timeout" ;; @rewriteTimeoutMsg lower(msg.Args[0]) == "aofshrink" | [timeout.client] result == "timeout" ;; @rewriteTimeoutMsg lower(msg.Args[0]) == "client" | [timeout.evalna] result == "timeout" ;; @rewriteTimeoutMsg lower(msg.Args[0]) == "evalna" | [timeout.evalnasha] result == "timeout" ;; @rewriteTimeoutMsg lower(msg.Args[0]) == "evalnasha" | [timeout.subscribe] result == "timeout" ;; @rewriteTimeoutMsg lower(msg.Args[0]) == "subscribe" | [timeout.psubscribe] result == "timeout" ;; @rewriteTimeoutMsg lower(msg.Args[0]) == "psubscribe" | [timeout.publish] result == "timeout" ;; @rewriteTimeoutMsg lower(msg.Args[0]) == "publish" | [timeout.monitor] result == "timeout" ;; @rewriteTimeoutMsg lower(msg.Args[0]) == "monitor" | [timeout.jdel] result == "timeout" ;; @rewriteTimeoutMsg lower(msg.Args[0]) == "jdel" | [timeout.stats] result == "timeout" ;; @rewriteTimeoutMsg lower(msg.Args[0]) == "stats" | [timeout.test] result == "timeout" ;; @rewriteTimeoutMsg lower(msg.Args[0]) == "test" | [timeout.aof] result == "timeout" ;; @rewriteTimeoutMsg lower(msg.Args[0]) == "aof" | [timeout.aofmd5] result == "timeout" ;; @rewriteTimeoutMsg lower(msg.Args[0]) == "aofmd5" | [timeout.gc] result == "timeout" ;; @rewriteTimeoutMsg lower(msg.Args[0]) == "gc" | [timeout.script] result == "timeout" ;; @rewriteTimeoutMsg lower(msg.Args[0]) == "script" | [timeout.ping] result == "timeout" ;; @rewriteTimeoutMsg lower(msg.Args[0]) == "ping" | [timeout.auth] result == "timeout" ;; @rewriteTimeoutMsg lower(msg.Args[0]) == "auth" | [timeout.hello] result == "timeout" ;; @rewriteTimeoutMsg lower(msg.Args[0]) == "hello" | [timeout.command] result == "timeout" ;; @rewriteTimeoutMsg lower(msg.Args[0]) == "command" | [timeout.OTHER] result == "timeout" ;; @rewriteTimeoutMsg lower(msg.Args[0]) != "set" && lower(msg.Args[0]) != "del" && lower(msg.Args[0]) != "drop" && lower(msg.Args[0]) != "fset" && lower(msg.Args[0]) != "flushdb" && lower(msg.Args[0]) != "setchan" && lower(msg.Args[0]) != "pdelchan" && lower(msg.Args[0]) != "delchan" && lower(msg.Args[0]) != "sethook" && lower(msg.Args[0]) != "pdelhook" && lower(msg.Args[0]) != "delhook" && lower(msg.Args[0]) != "expire" && lower(msg.Args[0]) != "persist" && lower(msg.Args[0]) != "jset" && lower(msg.Args[0]) != "pdel" && lower(msg.Args[0]) != "rename" && lower(msg.Args[0]) != "renamenx" && lower(msg.Args[0]) != "eval" && lower(msg.Args[0]) != "evalsha" && lower(msg.Args[0]) != "get" && lower(msg.Args[0]) != "keys" && lower(msg.Args[0]) != "scan" && lower(msg.Args[0]) != "nearby" && lower(msg.Args[0]) != "within" && lower(msg.Args[0]) != "intersects" && lower(msg.Args[0]) != "hooks" && lower(msg.Args[0]) != "chans" && lower(msg.Args[0]) != "search" && lower(msg.Args[0]) != "ttl" && lower(msg.Args[0]) != "bounds" && lower(msg.Args[0]) != "server" && lower(msg.Args[0]) != "info" && lower(msg.Args[0]) != "type" && lower(msg.Args[0]) != "jget" && lower(msg.Args[0]) != "evalro" && lower(msg.Args[0]) != "evalrosha" && lower(msg.Args[0]) != "role" && lower(msg.Args[0]) != "fget" && lower(msg.Args[0]) != "exists" && lower(msg.Args[0]) != "fexists" && lower(msg.Args[0]) != "healthz" && lower(msg.Args[0]) != "follow" && lower(msg.Args[0]) != "slaveof" && lower(msg.Args[0]) != "replconf" && lower(msg.Args[0]) != "readonly" && lower(msg.Args[0]) != "config" && lower(msg.Args[0]) != "output" && lower(msg.Args[0]) != "echo" && lower(msg.Args[0]) != "massinsert" && lower(msg.Args[0]) != "sleep" && lower(msg.Args[0]) != "shutdown" && lower(msg.Args[0]) != "aofshrink" && lower(msg.Args[0]) != "client" && lower(msg.Args[0]) != "evalna" && lower(msg.Args[0]) != "evalnasha" && lower(msg.Args[0]) != "subscribe" && lower(msg.Args[0]) != "psubscribe" && lower(msg.Args[0]) != "publish" && lower(msg.Args[0]) != "monitor" && lower(msg.Args[0]) != "jdel" && lower(msg.Args[0]) != "stats" && lower(msg.Args[0]) != "test" && lower(msg.Args[0]) != "aof" && lower(msg.Args[0]) != "aofmd5" && lower(msg.Args[0]) != "gc" && lower(msg.Args[0]) != "script" && lower(msg.Args[0]) != "ping" && lower(msg.Args[0]) != "auth" && lower(msg.Args[0]) != "hello" && lower(msg.Args[0]) != "command"
 //@   gate A5: old(s.config._requirePass) == "" || client.authd except cmdOUTPUT, cmdHEALTHZ
+//@   frame-by-effects
+//@   modifies lock, pending, ndispatched, lastDispatched, steps, perCall, nlogged, nflushed, mine, fdata, fpos, ncomplete
+//@   interference-ghosts nlogged, nflushed
+//@   rely nlogged >= old(nlogged) && nflushed >= old(nflushed)
+//@   requires mine <= nlogged
+//@   ensures [mine-logged] mine <= nlogged
 //@   ensures [lock-balance] lock == 0
 //@   ensures [logged] !pending
 //@   ensures [A5.flag] client.authd && !old(client.authd) ==> old(s.config._requirePass) != "" && (old(s.config._requirePass) == trimSpace(old(msg.Auth)) || (old(msg.Auth) == "" && len(old(msg.Args)) > 1 && old(s.config._requirePass) == trimSpace(old(msg.Args)[1])))
@@ -131,7 +145,8 @@ package server
 //@ func mvtFilterHTTPArgs
 //@   requires msg != nil && len(msg.Args) > 0
 //@   modifies msg._command, msg.Args
-//@   ensures msg._command == "" || msg._command == old(msg._command)
+//@   ensures modified ==> msg._command == ""
+//@   ensures !modified ==> msg._command == old(msg._command)
 //@   ensures len(msg.Args) > 0
 //@   ensures !modified ==> msg.Args == old(msg.Args)
 //@   ensures modified ==> len(msg.Args) >= 2 && msg.Args[0] == "INTERSECTS"
@@ -345,8 +360,10 @@ package server
 //@ func Server.flushAOF
 //@   assumed
 //@   requires len(s.aofbuf) > 0 ==> s.aof != nil
-//@   modifies s.aofbuf, fdata, fpos
+//@   modifies s.aofbuf, fdata, fpos, nflushed
 //@   ensures len(s.aofbuf) == 0 && len(fdata) == len(old(fdata)) + len(old(s.aofbuf)) && fdata[:len(old(fdata))] == old(fdata)
+// ghost counter of the bytes handed to the file: everything that was buffered
+//@   ensures [ghost-def.flushed] nflushed == old(nflushed) + len(old(s.aofbuf))
 //@ ghost macro datasetEmpty(s) = *s.cols == emptyStrMap() && *s.hooks == emptyIntMap() && *s.hooksOut == emptyIntMap() && *s.groupHooks == emptyIntMap() && *s.groupObjects == emptyIntMap() && *s.hookExpires == emptyIntMap() && *s.hookTree == emptyBag() && *s.hookCross == emptyBag()
 //@ func Server.flushDB
 //@   frame-by-effects
@@ -507,3 +524,43 @@ package server
 //@   at-call os.File.Seek [crash.seek] swapping ==> lock == 2 && crashSafe()
 //@   at-call os.OpenFile#1 [swapped] swapping && fdata == shrNew
 //@   at-call os.File.Seek#1 [swapped] swapping && fdata == shrNew
+
+// ---- reply after flush (C08) ---------------------------------------------------------
+// A connection thread, verified in place inside netServe (`threads-inline`), with interference by the other threads at
+// every point where it does not hold the lock (`interfere-*`): lock-protected state and the ghost byte counters change
+// arbitrarily, subject to `rely`: the counters only grow, nlogged - nflushed is what the buffer holds, and the dirty
+// flag is false only when the buffer is empty. `mine` is thread-local. The obligation: at every socket write of this
+// thread, everything it logged has been handed to the file.
+//@ ghost macro flagInv(s) = !s.aofdirty ==> len(s.aofbuf) == 0
+//@ func Server.netServe
+//@   lockcheck
+//@   threads-inline
+//@   frame-by-effects
+//@   requires s != nil && s.config != nil && lock == 0 && !pending && mine <= nflushed && nflushed <= nlogged
+//@   interference-ghosts nlogged, nflushed
+//@   rely nlogged >= old(nlogged) && nflushed >= old(nflushed) && nflushed <= nlogged
+//@   rely nlogged - nflushed == len(s.aofbuf)
+//@   rely flagInv(s)
+// the pipeline reader hands out well-formed messages (assumed here; its no-panic behaviour is C16)
+//@   env-at-call PipelineReader.ReadMessages pr != nil
+//@   env-at-call Message.Command msg != nil && len(msg.Args) > 0 && (msg._command == "" || msg._command == lower(msg.Args[0]))
+//@   env-at-call Server.handleInputCommand !(msg.ConnType == HTTP && len(msg.Args) == 1 && hasByte(msg.Args[0], 63))
+//@   after-lock len(s.aofbuf) > 0 ==> s.aof != nil
+//@   interfere-after-call rwlocker.Unlock
+//@   interfere-at-call atomic.Bool.Load
+//@   interfere-after-call Server.handleInputCommand
+//@   loop 2 invariant lock == 0 && !pending && mine <= nflushed && nflushed <= nlogged
+//@   loop 3 invariant lock == 0 && !pending && mine <= nlogged && nflushed <= nlogged && client != nil
+//@   loop 4 invariant lock == 0 && !pending && mine <= nlogged && nflushed <= nlogged && client != nil
+//@   at-call atomic.Bool.Store [flag-written-under-lock] lock == 2
+//@   at-call rwlocker.Unlock [flag-means-flushed] flagInv(s)
+// the two places where buffered replies (client.out) go to the socket
+//@   at-call net.Conn.Write#2 [reply-after-flush] mine <= nflushed
+//@   at-call io.Writer.Write#1 [reply-after-flush.going-live] mine <= nflushed
+// a detached connection serves a live geofence; it takes the shared lock for each notification (not under contract)
+//@ func Server.goLive
+//@   assumed
+//@   locks-internally
+//@   frame-by-effects
+//@   requires lock == 0
+//@   ensures lock == 0
